@@ -175,9 +175,35 @@ func buildNatives() map[string]nativeFn {
 		p := a[0].(Ptr)
 		nv := in.C.Add((*p.P).(*smt.Term), a[1].(*smt.Term))
 		in.logStore(p.O, 0, true)
+		in.P.atomicOps++
 		*p.P = nv
 		return nv
 	}
+	m["sync/atomic.LoadInt32"] = func(in *Interp, fn *ssa.Function, a []Value) Value {
+		p := a[0].(Ptr)
+		in.P.atomicOps++
+		return (*p.P).(*smt.Term)
+	}
+	m["sync/atomic.StoreInt32"] = func(in *Interp, fn *ssa.Function, a []Value) Value {
+		p := a[0].(Ptr)
+		in.logStore(p.O, 0, true)
+		in.P.atomicOps++
+		*p.P = a[1]
+		return nil
+	}
+	m["sync/atomic.CompareAndSwapInt32"] = func(in *Interp, fn *ssa.Function, a []Value) Value {
+		p := a[0].(Ptr)
+		in.P.atomicOps++
+		if in.decide(in.C.Eq((*p.P).(*smt.Term), a[1].(*smt.Term))) {
+			in.logStore(p.O, 0, true)
+			*p.P = a[2]
+			return in.C.True
+		}
+		return in.C.False
+	}
+	rt("AtomicOps", func(in *Interp, fn *ssa.Function, a []Value) Value {
+		return in.C.Const(64, uint64(in.P.atomicOps))
+	})
 	m["strconv.ParseFloat"] = func(in *Interp, fn *ssa.Function, a []Value) Value {
 		return in.uninterpNum("strconv.ParseFloat", a[0].(Str), float64(0), fn)
 	}
